@@ -397,7 +397,7 @@ def _where(exc: BaseException) -> str:
 
 @contextlib.contextmanager
 def tempdir() -> Iterator[str]:
-    path = tempfile.mkdtemp(prefix="verif-c16-")
+    path = tempfile.mkdtemp(prefix=f"verif-c16-{os.environ.get('VERIF_C16_RUN', os.getpid())}-")
     try:
         yield path
     finally:
@@ -1393,6 +1393,7 @@ def check_engine(item: dict, tier: str) -> Result:
 
 
 def items(tier: str, seed: int) -> list[dict]:
+    os.environ["VERIF_C16_RUN"] = str(os.getpid())  # inherited by every forked worker: names this run's temporary directories
     out: list[dict] = plan_histories(tier)
     out.sort(key=lambda i: -len(i["history"]))
     # the CLI always enables probing (cli/commands/run/__init__.py: `[PhaseName.PROBING] + ...`); the console handler relies on it
@@ -1408,6 +1409,11 @@ def items(tier: str, seed: int) -> list[dict]:
 def finalize(total: Result, tier: str) -> None:
     for key, value in PLAN_STATS.items():
         total.counters[key] = value
+    # workers killed by the runner's time cap cannot remove their directory: sweep what this run left behind
+    import glob
+
+    for leftover in glob.glob(os.path.join(tempfile.gettempdir(), f"verif-c16-{os.environ.get('VERIF_C16_RUN', os.getpid())}-*")):
+        shutil.rmtree(leftover, ignore_errors=True)
 
 
 def check_item(item: dict, tier: str) -> Result:
